@@ -131,6 +131,21 @@ FoaSpec == Start(FoaCases) /\ [][Step([pmvol |-> Div(Mul(Div(FoaDelta(c.t2), I(1
 FoaMonotone == \A a, b \in {6, 14, 37, 60, 115, 170, 185, 200, 220} : a <= b => Le(FoaDelta(a), FoaDelta(b))
 
 -----------------------------------------------------------------------------
+(* SCOPE11 non-volatile PM: the piecewise rules around the published           *)
+(* correlation (its magnitude is not decided, DESIGN.md section 6): a smoke    *)
+(* number above 40 counts as 40; a smoke number of 0 or -1 means "no data"     *)
+(* and gives 0; the index does not decrease with the smoke number.             *)
+ScopeSN == {-1, 0, 2, 5, 13, 30, 40, 41, 44, 60, 100}
+ScopeCases == [sn : ScopeSN, mode : {"idle", "approach", "climb", "takeoff"}, eng : {"TF", "MTF"}]
+ScopeCapped(sn) == IF sn > 40 THEN 40 ELSE sn
+ScopeNoData(sn) == sn \in {-1, 0}
+ScopeSpec == Start(ScopeCases) /\ [][Step([same_as |-> ScopeCapped(c.sn), zero |-> ScopeNoData(c.sn),
+                                              below |-> IF \E x \in ScopeSN : x > 0 /\ x < ScopeCapped(c.sn) THEN
+                                                           CHOOSE x \in ScopeSN : x > 0 /\ x < ScopeCapped(c.sn) /\ \A y \in ScopeSN : (y > 0 /\ y < ScopeCapped(c.sn)) => y <= x
+                                                        ELSE 0])]_vars
+ScopeCapIdempotent == \A sn \in ScopeSN : ScopeCapped(ScopeCapped(sn)) = ScopeCapped(sn)
+
+-----------------------------------------------------------------------------
 (* NOx speciation (percent * 100000) and fuel-flow volatile PM               *)
 SpecModes == {"idle", "approach", "climb", "takeoff"}
 Hono(m) == IF m \in {"idle", "approach"} THEN 450000 ELSE 75000
